@@ -33,6 +33,8 @@ Bad(e) ==
             /\ \A i \in (Len(e.respauth2) + 1)..Len(h.resp) : h.resp[i] = 0
            THEN {"C15.survives.response.trailing_nul"}
            ELSE T(e.decerr \/ e.respauth2 # h.resp \/ e.status2 # h.status, "C15.survives.response")
+    [] e.ev = "Stamp" ->   \* the 10-digit string (digest input) and the number (PDU field) denote the same instant
+         T(e.s # Dec10(e.n), "C15.timestamp_pair")
     [] e.ev = "CliVerify" ->
          T(e.recomputed # e.received \/ MD5(RespInput(h.status, h.auth, h.secret)) # e.received, "C15.verifies.response")
 
